@@ -1263,3 +1263,22 @@ package mcp
 //@   ensures[C14 lifecycle-manager-wired-to-the-serving-managers] result != nil && result.lifecycleManager != nil && result.lifecycleManager.toolManager == result.toolManager && result.lifecycleManager.promptManager == result.promptManager && result.lifecycleManager.resourceManager == result.resourceManager && result.promptManager != nil && result.toolManager != nil && result.resourceManager != nil
 //@ func newMCPHandler
 //@   ensures[C14 lifecycle-manager-wired-to-the-serving-managers] result != nil && result.lifecycleManager != nil && result.lifecycleManager.toolManager == result.toolManager && result.lifecycleManager.promptManager == result.promptManager && result.lifecycleManager.resourceManager == result.resourceManager
+//@
+// C13 — request paths keep no state in the serving objects: every field of these types (fields added
+// later included) is written only by the constructors / option functions
+//@ type mcpHandler
+//@   frozen[C13]
+//@ type httpServerHandler
+//@   frozen[C13]
+//@ type lifecycleManager
+//@   init withToolManager, withResourceManager, withPromptManager, withLogger, withStatelessMode
+//@   frozen[C13,C16] except capabilities
+//@ type sseResponder
+//@   init withEventID
+//@   frozen[C13]
+//@ type jsonResponder
+//@   frozen[C13]
+//@ type responderFactory
+//@   init newResponderFactory, withFactoryStatelessMode, withResponderSSEEnabled
+//@   frozen[C13]
+//@
